@@ -322,6 +322,7 @@ def _run_stream_init_sync(
                 app._token_key,
                 auth,
                 stream_id,
+                method=method_name,
             )
             # Warm the cache with the objects we already hold, so this stream's
             # first continuation does not have to open the token it was just
@@ -329,7 +330,9 @@ def _run_stream_init_sync(
             app._call_state_cache.put(
                 call_id,
                 auth,
-                _ResolvedCall(result.call_state, result.output_schema, result.input_schema, stream_id),
+                _ResolvedCall(
+                    result.call_state, result.output_schema, result.input_schema, stream_id, method=method_name
+                ),
                 time.time(),
             )
 
@@ -565,7 +568,7 @@ def _run_stream_exchange_sync(
             resolved_call,
             call_id,
             request_state_bytes,
-        ) = _unpack_and_recover_state(app, token, call_token, state_info, auth)
+        ) = _unpack_and_recover_state(app, token, call_token, state_info, auth, method_name)
         output_schema = resolved_call.output_schema
         input_schema = resolved_call.input_schema
         stream_id = resolved_call.stream_id
@@ -1163,6 +1166,7 @@ def _unpack_and_recover_state(
     call_token: bytes | None,
     state_info: _StateInfo,
     auth: AuthContext | None,
+    method_name: str = "",
 ) -> tuple[StreamState, _ResolvedCall, bytes, bytes]:
     """Open a cursor token, resolve its call, and rebuild the state object.
 
@@ -1180,6 +1184,12 @@ def _unpack_and_recover_state(
     token is opened and verified, and its embedded ``call_id`` must match
     the one the cursor named.
 
+    Either way the call must belong to *this* method: the call token's AAD
+    names the method that minted it, and a cached entry remembers it.  A
+    pair of tokens minted by another stream method of the service is
+    refused like any other token that does not open, before any state class
+    of this method is run over the foreign bytes.
+
     Args:
         app: The HTTP app providing the AEAD key, TTL, cache, and server
             implementation.
@@ -1191,6 +1201,7 @@ def _unpack_and_recover_state(
             concrete class is resolved from the numeric tag embedded in
             ``state_bytes``.
         auth: Authenticated identity for the current request.
+        method_name: The stream method whose endpoint received the request.
 
     Returns:
         ``(state_object, resolved_call, call_id, state_bytes)``.
@@ -1211,8 +1222,15 @@ def _unpack_and_recover_state(
 
     now = time.time()
     resolved = app._call_state_cache.get(call_id, auth, now)
+    if resolved is not None and resolved.method != method_name:
+        # Same answer a cold worker gives when the call token fails to open
+        # under this method's AAD.
+        raise _RpcHttpError(
+            RuntimeError("Call token signature verification failed"),
+            status_code=HTTPStatus.BAD_REQUEST,
+        )
     if resolved is None:
-        resolved = _resolve_call_from_token(app, call_token, call_id, state_info, auth)
+        resolved = _resolve_call_from_token(app, call_token, call_id, state_info, auth, method_name)
         # Re-cache only for as long as the token just opened stays valid.
         # ``now + ttl`` would let this process keep serving the stream after
         # the token has expired everywhere a cache miss can still happen.
@@ -1261,6 +1279,7 @@ def _resolve_call_from_token(
     expected_call_id: bytes,
     state_info: _StateInfo,
     auth: AuthContext | None,
+    method_name: str = "",
 ) -> _ResolvedCall:
     """Open a client-supplied call token — the cache-miss path.
 
@@ -1271,6 +1290,8 @@ def _resolve_call_from_token(
         state_info: The method's state class (or union tuple), which
             declares the call-state type to deserialize into.
         auth: Authenticated identity for the current request.
+        method_name: The stream method whose endpoint received the request;
+            part of the AAD the token must open under.
 
     Returns:
         The parsed :class:`_ResolvedCall`.
@@ -1295,7 +1316,7 @@ def _resolve_call_from_token(
         token_call_id,
         stream_id,
         created_at,
-    ) = _open_call_token_timestamped(call_token, app._token_key, _compute_call_aad(auth), app._token_ttl)
+    ) = _open_call_token_timestamped(call_token, app._token_key, _compute_call_aad(auth, method_name), app._token_ttl)
     # Constant-time compare: the ids are both server-minted and already
     # authenticated, so this is belt-and-braces against a client pairing two
     # of its own tokens from different streams.
@@ -1337,4 +1358,4 @@ def _resolve_call_from_token(
                 status_code=HTTPStatus.BAD_REQUEST,
             ) from exc
 
-    return _ResolvedCall(call_state, output_schema, input_schema, stream_id, created_at)
+    return _ResolvedCall(call_state, output_schema, input_schema, stream_id, created_at, method_name)
